@@ -1,4 +1,5 @@
 from vlib.core import Check, Family
+from vlib.gentie import gentie_step
 
 CHECK = Check(
     "C13",
@@ -8,6 +9,10 @@ CHECK = Check(
               # "per-cell table lengths": several cells with tables of different length in one vectorised Run, each cell
               # re-run alone inside the worker (family W's single-cell oracle) and compared with the wrapper model
               Family("W", rtol=None, args=["models=Storage", "n=40"], label="W-storage-per-cell-tables")],
+    # tie A: storage.go (storageWaterBalance with its function literals, the two sub-step loops, the statements after the loop) is
+    # REGENERATED as Lean on every run (harness/cmd/owtranslate) and proved equal to OW/Kernels/Storage.lean
+    # (OW/Props/GenTieStorage.lean: gen_eq_Storage; fn.Piecewise and checkStorageConfiguration stay abstract arguments)
+    pre_steps=[gentie_step],
     level="proof",
     trusted=[
         "hand-written Lean model OW/Kernels/Storage.lean of models/storage/storage.go (cappedPiecewise, releaseRate, "
